@@ -70,6 +70,11 @@ pub struct Plan {
     /// use xs's real id generator (real clock) instead of the simulated one
     #[serde(default)]
     pub real_ids: bool,
+    /// the history thread is released even when the delivery buffer is full and then blocks
+    /// for real in its send until the consumer takes a frame (only without heartbeat followers:
+    /// the blocked thread must be the only sender waiting for room)
+    #[serde(default)]
+    pub unguarded: bool,
     pub ops: Vec<Item>,
     #[serde(default)]
     pub choices: Vec<String>,
@@ -199,6 +204,7 @@ pub fn generate(seed: u64, prop: &str, thorough: bool) -> Plan {
         ticks: if any_hb { rng.range(2, 8) as u32 } else { 0 },
         max_decisions: 600,
         real_ids: rng.chance(if prop == "C02" { 35 } else { 10 }),
+        unguarded: rng.chance(35) && !any_hb,
         ops,
         choices: vec![],
     }
@@ -292,7 +298,7 @@ impl Run {
     fn new(plan: &Plan, tag: &str) -> R<Run> {
         let has_removers = plan.ops.iter().any(|i| matches!(i, Item::R(_)));
         let pass: &[&'static str] = if has_removers { &[] } else { &["remove.enter", "remove.committed"] };
-        let mut w = World::new(tag, plan.seed ^ 0x2e, &[("broadcast.cap", plan.bcap), ("read.cap", plan.rcap), ("ids.real", plan.real_ids as usize)], pass);
+        let mut w = World::new(tag, plan.seed ^ 0x2e, &[("broadcast.cap", plan.bcap), ("read.cap", plan.rcap), ("ids.real", plan.real_ids as usize), ("hist.unguarded", plan.unguarded as usize)], pass);
         let path = w.dir.join("s0");
         std::fs::create_dir_all(&path).map_err(|e| Stop::Harness(e.to_string()))?;
         let store = w.open_store(&path)?;
@@ -717,9 +723,25 @@ impl Run {
     }
 
     fn consume(&mut self, k: usize) -> R<()> {
+        // a history thread blocked in its send into this follower's full buffer is woken by
+        // the frame taken below: account for it first
+        let mut woke = false;
+        if let Some(rid) = self.followers[k].rid {
+            if self.followers[k].rx.is_some() && self.w.ctrl.wake_blocked("hist.send", rid) {
+                self.w.probe("history:blocked-in-send-woken");
+                woke = true;
+            }
+        }
         let f = &mut self.followers[k];
         let Some(rx) = f.rx.as_mut() else { return Ok(()) };
-        match rx.try_recv() {
+        let taken = rx.try_recv();
+        if woke {
+            // the woken thread runs to its next sync point before anything is observed
+            self.w.wait()?;
+            self.track_followers()?;
+        }
+        let f = &mut self.followers[k];
+        match taken {
             Ok(fr) => {
                 f.got.push(fr.clone());
                 // online: order and duplicates of real frames
@@ -981,6 +1003,10 @@ impl Run {
     }
 
     fn final_checks(&mut self) -> R<()> {
+        if self.w.ctrl.unexpected_wakes() > 0 {
+            // only changed code gets here: a send into a full buffer that returned by itself
+            self.w.probe("history:send-into-full-buffer-returned");
+        }
         // final store content
         let all: Vec<Frame> = self.store.read_sync(None, None, None).collect();
         for f in &all {
